@@ -320,7 +320,11 @@ impl<'r> Cx<'r> {
                     return false;
                 }
                 let n = self.rng.range(1, 4);
-                let targets: Vec<u32> = (0..n).map(|_| *self.rng.pick(&t)).collect();
+                let mut targets: Vec<u32> = (0..n).map(|_| *self.rng.pick(&t)).collect();
+                // tables that repeat a label before naming a new one (1 in 3 of the longer tables)
+                if n >= 3 && self.rng.chance(1, 3) {
+                    targets[1] = targets[0];
+                }
                 let default = *self.rng.pick(&t);
                 self.tick();
                 self.expr(1);
